@@ -386,7 +386,7 @@ func VerifC19Keys() {
 	dec := imapwire.NewDecoder(bufio.NewReader(strings.NewReader(line+"\r\n")), imapwire.ConnSideServer)
 	var criteria imap.SearchCriteria
 	for {
-		if err := readSearchKey(&criteria, dec); err != nil {
+		if err := readSearchKey(&criteria, dec, 0); err != nil {
 			nd.Note("line", line)
 			nd.Fail("valid-search-key-rejected")
 		}
